@@ -1,6 +1,6 @@
 // C19 real-thread harness: PANOC / ZeroFPR / PANTR / FISTA runs on a deliberately slow problem while
 // *another std::thread* calls solver.stop().  One op line -> one output line:
-//   threadstop solver=panoc|zerofpr|pantr|fista <problem / start / parameter keys as in solvers_*.cpp>
+//   threadstop solver=panoc|zerofpr|pantr|fista|alm (ALM over PANOC + L-BFGS) <problem / start / parameter keys as in solvers_*.cpp>
 //              stopeval=<k> delay_us=<d> spin=<s>
 //     stopeval=k : the stopper thread waits until the solver thread has begun its k-th problem
 //                  evaluation, then (after delay_us microseconds) calls stop()
@@ -16,7 +16,9 @@
 #include <alpaqa/implementation/inner/pantr.tpp>
 #include <alpaqa/implementation/inner/zerofpr.tpp>
 #include <alpaqa/implementation/inner/directions/panoc/structured-lbfgs.tpp>
+#include <alpaqa/implementation/outer/alm.tpp>
 #include <alpaqa/inner/fista.hpp>
+#include <alpaqa/outer/alm.hpp>
 #include <atomic>
 #include <iostream>
 #include <thread>
@@ -158,6 +160,62 @@ std::string run_threadstop(const KV &kv, Solver &&solver) {
     return out;
 }
 
+// ALM over PANOC + L-BFGS: another thread calls alm.stop() (ALMSolver has its own stop flag since /repo 02b663b30).
+// Output in the same layout: iterations = accumulated inner iterations, ε of the last inner solve; no callback section.
+inline std::string run_threadstop_alm(const KV &kv) {
+    using D     = alpaqa::LBFGSDirection<config_t>;
+    using Inner = alpaqa::PANOCSolver<D>;
+    PolyProblem poly{kv};
+    std::atomic<long> count{0};
+    SlowProblem sp{&poly, &count, kv.nat("spin", 2000)};
+    alpaqa::TypeErasedProblem<config_t> te{&sp};
+    alpaqa::PANOCParams<config_t> ip;
+    set_common_params(ip, kv);
+    typename D::AcceleratorParams ap;
+    ap.memory = (unsigned)kv.nat("mem", 5);
+    alpaqa::ALMParams<config_t> params;
+    params.tolerance      = kv.flt("tol", 1e-8);
+    params.dual_tolerance = kv.flt("dtol", 1e-8);
+    params.max_iter       = (unsigned)kv.nat("almiter", 20);
+    params.print_interval = 0;
+    alpaqa::ALMSolver<Inner> alm{params, Inner{ip, D{ap}}};
+    std::ostream nullos(nullptr);
+    alm.os              = &nullos;
+    alm.inner_solver.os = &nullos;
+    vec x = kv.vecv("x0"), y = kv.vecv("y0");
+    long stopeval = kv.nat("stopeval", 1), delay_us = kv.nat("delay_us", 0);
+    std::atomic<bool> done{false};
+    std::atomic<long> at_stop{-1};
+    std::atomic<bool> stopped_in_time{false};
+    std::thread stopper([&] {
+        while (count.load(std::memory_order_seq_cst) < stopeval && !done.load(std::memory_order_seq_cst))
+            std::this_thread::yield();
+        if (delay_us > 0)
+            std::this_thread::sleep_for(std::chrono::microseconds(delay_us));
+        bool in_time = !done.load(std::memory_order_seq_cst);
+        alm.stop();
+        at_stop.store(count.load(std::memory_order_seq_cst), std::memory_order_seq_cst);
+        stopped_in_time.store(in_time, std::memory_order_seq_cst);
+    });
+    std::string out;
+    try {
+        auto s = alm(te, x, y);
+        done.store(true, std::memory_order_seq_cst);
+        out = "S " + status_name(s.status) + ' ' + std::to_string(s.inner.iterations) + ' ' + vp::f2h(s.ε) + " 0 0 " +
+              std::to_string(s.inner.stepsize_backtracks) + " 0 0 0 0 " + vp::f2h(0) + ' ' + vp::f2h(0) + ' ' +
+              vp::f2h(0) + ' ' + vp::f2h(0) + ' ' + vp::f2h(0) + " ; OUTER " + std::to_string(s.outer_iterations);
+    } catch (std::exception &e) {
+        done.store(true, std::memory_order_seq_cst);
+        out = std::string("S exception");
+    }
+    stopper.join();
+    out += " ; X " + vp::fmtv(x) + " ; Y " + vp::fmtv(y);
+    out += " ; T " + std::to_string(count.load());
+    out += " ; A " + std::to_string(at_stop.load()) + ' ' + std::to_string(count.load()) + ' ' +
+           (stopped_in_time.load() ? "1" : "0");
+    return out;
+}
+
 template <class Dir>
 std::string run_panoc_like(const KV &kv, Dir &&dir) {
     using D = std::remove_cvref_t<Dir>;
@@ -189,6 +247,8 @@ std::string run_panoc_like(const KV &kv, Dir &&dir) {
 std::string threadstop(const KV &kv) {
     std::string d = kv.str("dir", "lbfgs"), solver = kv.str("solver", "panoc");
     unsigned mem  = (unsigned)kv.nat("mem", 5);
+    if (solver == "alm")
+        return run_threadstop_alm(kv);
     if (solver == "fista") {
         alpaqa::FISTAParams<config_t> p;
         set_common_params(p, kv);
